@@ -137,7 +137,7 @@ Proof.
   intro Hd. induction ns as [|n ns IH]; intros st st' cnt0 cnt Hsub Hl H.
   - inversion H; subst. exact Hl.
   - assert (Hsub' : forall x, In x ns -> In x all) by (intros x Hx; apply Hsub; now right).
-    destruct n as [[s d0|s d0 e|i src|width d e|k e|k e|k e|bi] c]; try (eapply IH; eauto; fail).
+    destruct n as [[s d0|s d0 e|i src|width d e|k e|k e|k e|bi|e] c]; try (eapply IH; eauto; fail).
     destruct (eval code_ops (pvar_simple2 m st) e []) as [[v c0]|]; [|discriminate].
     assert (Hl' : labels_ok2 all {| s_sym := set_nth (s_sym st) s v; s_instr := s_instr st; s_data := s_data st; s_res := s_res st; s_align := s_align st; s_addr := s_addr st |}).
     { intros s0 d1 c1 Hs0. cbn [s_sym]. assert (s0 <> s) by (intro; subst; eapply Hd; eauto; apply Hsub; now left).
@@ -172,6 +172,28 @@ Qed.
 (* C02: every successful assembly carries a certificate, the symbol values, banks and output of the result are
    those of the certified state, and the reported pass count is within the budget; there is no other way to
    obtain output. *)
+Theorem assemble2_certificate_inv indexed defs ps budget r :
+  assemble2 indexed defs ps budget = Ok r ->
+  exists m ns st1 st,
+    setup indexed defs ps = Some (m, ns, r_banks r, st1) /\
+    labels_ok2 ns st /\
+    Certified2 m (r_banks r) defs max_bits ns st /\
+    r_syms r = symbol_values m st /\
+    out_nodes st ns = Ok (r_nodes r) /\
+    Output.output_stage (Z.to_N max_bits) (r_banks r) (r_nodes r) = Ok (r_bits r, r_items r) /\
+    (r_iters r <= budget)%nat.
+Proof.
+  intro H. unfold assemble2 in H.
+  destruct (setup indexed defs ps) as [[[[m ns] banks] st1]|] eqn:S; [|discriminate].
+  destruct (loop2 m banks defs max_bits ns budget 0 budget st1) as [[st n]| |] eqn:L; try discriminate.
+  destruct (out_nodes st ns) as [vs| |] eqn:O; try discriminate.
+  destruct (Output.output_stage (Z.to_N max_bits) banks vs) as [[bits items]| |] eqn:B; try discriminate.
+  inversion H; subst; clear H. cbn [r_banks r_syms r_nodes r_bits r_items r_iters].
+  destruct (setup_ok _ _ _ _ _ _ _ S) as [Hd Hl].
+  destruct (loop2_inv m banks defs max_bits ns Hd budget 0 budget st1 st n Hl L ltac:(lia)) as [Hl' [Hc Hn]].
+  exists m, ns, st1, st. auto 10.
+Qed.
+
 Theorem assemble2_certificate indexed defs ps budget r :
   assemble2 indexed defs ps budget = Ok r ->
   exists m ns st1 st,
@@ -214,6 +236,20 @@ Qed.
 Theorem assemble2_passes indexed defs ps budget r :
   assemble2 indexed defs ps budget = Ok r -> (r_iters r <= budget)%nat.
 Proof. intro H. destruct (assemble2_certificate _ _ _ _ _ H) as (m & ns & st1 & st & _ & _ & _ & _ & _ & Hn). exact Hn. Qed.
+
+(* with an #assert directive the loop cannot stop early (the directive is only decided on the last pass): the
+   reported pass count is the budget itself *)
+Theorem assemble2_assert_count indexed defs ps budget r m ns banks st1 :
+  setup indexed defs ps = Some (m, ns, banks, st1) -> has_assert ns = true -> (1 <= budget)%nat ->
+  assemble2 indexed defs ps budget = Ok r -> r_iters r = budget.
+Proof.
+  intros S Ha Hb H. unfold assemble2 in H. rewrite S in H.
+  destruct (loop2 m banks defs max_bits ns budget 0 budget st1) as [[st n]| |] eqn:L; try discriminate.
+  destruct (out_nodes st ns) as [vs| |]; try discriminate.
+  destruct (Output.output_stage (Z.to_N max_bits) banks vs) as [[bits items]| |]; try discriminate.
+  inversion H; subst; clear H. cbn [r_iters].
+  eapply loop2_assert_count; eauto; lia.
+Qed.
 
 (* C02b / C06: the output of a successful assembly satisfies the layout invariant for its banks and items:
    no two items share an output bit, every item lies inside its bank's size and window at
@@ -278,3 +314,40 @@ Example assemble2_budget_nonvacuous :
   assemble2 true [] ex_prog2 1 = Err /\
   exists r, assemble2 true [] ex_prog2 2 = Ok r /\ r_iters r = 2%nat.
 Proof. split; [vm_compute; reflexivity|]. eexists. split; vm_compute; reflexivity. Qed.
+
+(* ---- #assert directives ---- *)
+Definition ex_true : expr := EBin Eq (ENum 1 None) (ENum 1 None).
+Definition ex_false : expr := EBin Eq (ENum 1 None) (ENum 2 None).
+Definition ex_lbl : text := [108%N].                                   (* l *)
+(* #d8 7 / l: / #assert l == 1 / #assert $ == 1            (address-dependent, true) *)
+Definition ex_assert_addr (n : N) : list pnode :=
+  [ PData (Some 8%N) [ENum 7 None]; PLabel 0 ex_lbl;
+    PAssert (EBin Eq (EVar 0 [ex_lbl]) (ENum n None)); PAssert (EBin Eq (EVar 0 [[36%N]]) (ENum n None)) ].
+
+(* a true assertion: assembles at every budget >= 2 (budget 1 cannot confirm `#d8 7`), and the pass count IS the budget *)
+Example assert_true_nonvacuous :
+  assemble2 true [] [PData (Some 8%N) [ENum 7 None]; PAssert ex_true] 1 = Err /\
+  (exists r, assemble2 true [] [PData (Some 8%N) [ENum 7 None]; PAssert ex_true] 2 = Ok r /\ r_iters r = 2%nat) /\
+  (exists r, assemble2 true [] [PData (Some 8%N) [ENum 7 None]; PAssert ex_true] 5 = Ok r /\ r_iters r = 5%nat /\
+             r_bits r = [false; false; false; false; false; true; true; true]).
+Proof.
+  split; [vm_compute; reflexivity|]. split; eexists; (split; [vm_compute; reflexivity|]); vm_compute; auto.
+Qed.
+
+(* a false assertion never assembles: budgets 1..4 *)
+Example assert_false_nonvacuous :
+  forallb (fun b => match assemble2 true [] [PData (Some 8%N) [ENum 7 None]; PAssert ex_false] b with Err => true | _ => false end)
+          [1; 2; 3; 4]%nat = true.
+Proof. vm_compute. reflexivity. Qed.
+
+(* address-dependent: `l == 1` and `$ == 1` hold after `#d8 7`; `== 2` does not *)
+Example assert_address_nonvacuous :
+  (exists r, assemble2 true [] (ex_assert_addr 1) 3 = Ok r /\ r_iters r = 3%nat) /\
+  assemble2 true [] (ex_assert_addr 2) 3 = Err /\ assemble2 true [] (ex_assert_addr 1) 1 = Err.
+Proof. split; [eexists; split; vm_compute; reflexivity|]. split; vm_compute; reflexivity. Qed.
+
+(* unresolvable / ill-typed conditions: an undeclared symbol, and a condition that is not a boolean *)
+Example assert_unresolvable_nonvacuous :
+  assemble2 true [] [PAssert (EVar 0 [[113%N]])] 3 = Err /\ assemble2 true [] [PAssert (ENum 5 None)] 3 = Err /\
+  (exists r, assemble2 true [] [PAssert ex_true] 1 = Ok r /\ r_iters r = 1%nat).
+Proof. split; [vm_compute; reflexivity|]. split; [vm_compute; reflexivity|]. eexists; split; vm_compute; reflexivity. Qed.
